@@ -305,8 +305,24 @@ func c26Volume(c *ctx) {
 		vols = append(vols, 30000, 120000)
 		rates = append(rates, 0.0001, 0.9)
 	}
+	type vp struct {
+		n int
+		p float64
+	}
+	var cases []vp
 	for _, n := range vols {
 		for _, p := range rates {
+			cases = append(cases, vp{n, p})
+		}
+	}
+	// "at any volume": one filter large enough that any fixed cap on its size (a few MiB of bits) would bind
+	cases = append(cases, vp{160000, 1e-6})
+	if c.tier == "thorough" {
+		cases = append(cases, vp{600000, 0.001}, vp{300000, 1e-5})
+	}
+	for _, cs := range cases {
+		{
+			n, p := cs.n, cs.p
 			cfg := bs.DefaultBloomSearchEngineConfig()
 			cfg.BloomFalsePositiveRate = p
 			cfg.MaxBufferedRows = n + 10
